@@ -250,7 +250,7 @@ pub fn run_case(idx: usize, case: &Value, o: &SemOpts) -> (Value, Option<Value>,
     }
     let mut vm = serde_json::Map::new();
     vm.insert("rid".into(), json!(idx));
-    for k in ["fam", "fl", "hays", "ng"] {
+    for k in ["fam", "fl", "hays", "ng", "ast", "names"] {
         if let Some(v) = case.get(k) {
             vm.insert(k.into(), v.clone());
         }
